@@ -229,7 +229,7 @@ theorem C02_lastPhase_mono (env : Env) (rules : List Rule) (tx : Tx) (c : Call) 
     · left; rw [h2]; exact Nat.le_of_lt (h3 hc)
 
 /-! ## non-vacuity: a deny in phase 1, then every later call returns it -/
-def C02_demoEnv : Env := ⟨fun _ _ _ => true, fun _ v => (v, false, false)⟩
+def C02_demoEnv : Env := { op := fun _ _ _ => true, tf := fun _ v => (v, false, false) }
 def C02_deny : Rule := ⟨7, 1, [], [⟨[], none, [], false, []⟩], .deny, 0, 0, [], none, [], false, false⟩
 example : (runCalls C02_demoEnv [C02_deny] {} [.reqHeaders, .reqBody, .respHeaders, .reqHeaders]).2 =
     [some ⟨7, "deny", 403, []⟩, some ⟨7, "deny", 403, []⟩, some ⟨7, "deny", 403, []⟩, some ⟨7, "deny", 403, []⟩] := by decide
